@@ -3,7 +3,7 @@ import ast
 
 from ..srcmodel import AnalysisError, site
 from ..automat_x import Program, output_call_names, output_calls
-from ..astutil import dotted, const, resolve_local
+from ..astutil import dotted, const, resolve_local, calls_named
 from ..tablerules import rows_calling, row_calls, inputs_on_all_paths, simple_paths, assigns_in_output, reachable_states
 from ..effects import class_writers
 from ..cfg import build
@@ -288,6 +288,39 @@ def r8(prog, rep):
         raise AnalysisError("no row both acquires a server resource and reports to the application")
 
 
+def r9(tree, rep):
+    """the connector's stop() must report back to the Terminator (T.stoppedRC, through _stopped) whatever becomes of stopService():
+    the closed notification waits for it"""
+    from ..deferredchain import runs_always
+    from ..astutil import local_defs
+    RC = "src/wormhole/_rendezvous.py"
+    fn = tree.func(RC, "RendezvousConnector", "stop")
+    dvars = [t.id for a in ast.walk(fn) if isinstance(a, ast.Assign) for t in a.targets if isinstance(t, ast.Name)
+             and any(isinstance(c, ast.Attribute) and c.attr == "stopService" for c in ast.walk(a.value))]
+    if len(dvars) != 1:
+        raise AnalysisError("RendezvousConnector.stop: the Deferred of stopService() is not kept in one local")
+    from ..astutil import callback_function
+    methods = tree.methods(RC, "RendezvousConnector")
+
+    def tells_terminator(f, depth=3):
+        """the callback (bound method, closure, lambda, partial) ends up calling self._T.stoppedRC()"""
+        target = callback_function(f, fn, methods)
+        if target is None or depth == 0:
+            return False
+        for c in ast.walk(target):
+            if isinstance(c, ast.Call):
+                d = dotted(c.func) or ""
+                if d == "self._T.stoppedRC":
+                    return True
+                if d.startswith("self.") and d.count(".") == 1 and d.split(".")[1] in methods and tells_terminator(c.func, depth - 1):
+                    return True
+        return False
+    found, always, missing = runs_always(fn, dvars[0], tells_terminator)
+    rep.check("C08.R9", "RendezvousConnector.stop: the callback that tells the Terminator stoppedRC runs on every outcome of stopService() "
+              "(success and failure)", found and always, site(fn, RC), key="C08.R9:stop:_stopped-runs-always",
+              what="RendezvousConnector.stop: when stopService() %s, T.stoppedRC is not called: the Terminator never leaves its stopping state "
+                   "and the closed notification never fires" % ("fails" if "fail" in missing else "succeeds" if "ok" in missing else "completes"))
+
 def run(tree, rep, tier):
     from .. import sharedstate
     sharedstate.check(tree, rep, "C08.R0")
@@ -295,6 +328,7 @@ def run(tree, rep, tier):
     r_tables(prog, rep)
     r8(prog, rep)
     r6(tree, rep)
+    r9(tree, rep)
     from .C01 import decrypt_raises_only_cryptoerror
     decrypt_raises_only_cryptoerror(tree, rep, "C08.R7")
     r5(tree, rep, tier)
@@ -337,3 +371,7 @@ REWRITES = [
     Rewrite("verdict-via-local", BOSS, "        self._result = LonelyError()\n        self._T.close(\"lonely\")\n",
             "        self._result = LonelyError()\n        mood = \"lonely\"\n        self._T.close(mood)\n", desc="mood through a local"),
 ]
+MUTANTS.append(Mutant("stop-chain-skips-stopped-on-failure", "src/wormhole/_rendezvous.py", "        d.addErrback(log.err)\n        d.addBoth(self._stopped)", "        d.addCallback(self._stopped)\n        d.addErrback(log.err)", "C08.R9",
+                      "a failing stopService() never reaches _stopped: closed never fires (seed C08-11)"))
+REWRITES.append(Rewrite("stop-chain-chained", "src/wormhole/_rendezvous.py", "        d.addErrback(log.err)\n        d.addBoth(self._stopped)", "        d.addErrback(log.err).addBoth(self._stopped)", desc="chained spelling of the same callback chain"))
+REWRITES.append(Rewrite("stop-chain-callbacks", "src/wormhole/_rendezvous.py", "        d.addErrback(log.err)\n        d.addBoth(self._stopped)", "        d.addErrback(log.err)\n        d.addCallback(self._stopped)", desc="after a swallowing errback only success is left"))
